@@ -339,3 +339,11 @@ func init() {
 	addMutant(Mutant{Name: "c14-zero-length-binary-pruned", Property: "C14", File: "ygot/struct_validation_map.go",
 		Old: "\t\t\tif fVal.Len() != 0 || (fType.Type.Name() == BinaryTypeName && !fVal.IsNil()) {", New: "\t\t\tif fVal.Len() != 0 {", Expect: "slice-emptiness"})
 }
+
+func init() {
+	// R-SCHEMATREE-KEY (C26)
+	addMutant(Mutant{Name: "c26-schematree-goyang-path", Property: "C26", File: "yangschema/yangschema.go",
+		Old: "chPath := strings.Split(util.SchemaTreePath(ch), \"/\")", New: "chPath := strings.Split(ch.Path(), \"/\")", Expect: "schemaTreeChildrenAdd:Add#1:key"})
+	addMutant(Mutant{Name: "c26-relative-from-goyang-path", Property: "C26", File: "yangschema/yangschema.go",
+		Old: "cpathparts := strings.Split(util.SchemaTreePath(caller), \"/\")", New: "cpathparts := strings.Split(caller.Path(), \"/\")", Expect: "fixSchemaTreePath:caller-path"})
+}
